@@ -252,7 +252,8 @@ def Dgram.header (ck : Bool) (d : Dgram) : Header :=
   { source := d.sport, destination := d.dport, length := d.text.length + 8,
     checksum := asU16 ck (accBuild ck d.src d.sport d.dst d.dport (d.text.length + 8) d.text) }
 
-theorem build_ok (ck : Bool) (d : Dgram) (hw : d.Wf) :
+/-- the builder succeeds on a representable datagram, with these 8 bytes -/
+theorem c08_udp_build_ok (ck : Bool) (d : Dgram) (hw : d.Wf) :
     build ck d.src d.sport d.dst d.dport d.text d.text.length =
       .ok (be16 d.sport ++ be16 d.dport ++ be16 (d.text.length + 8) ++ be16 (d.header ck).checksum) := by
   obtain ⟨h1, h2, h3, h4, h5⟩ := hw
@@ -266,11 +267,10 @@ theorem c08_udp_decode_encode (ck : Bool) (d : Dgram) (hw : d.Wf) :
     ∃ bytes, build ck d.src d.sport d.dst d.dport d.text d.text.length = .ok bytes ∧
       bytes.length = 8 ∧
       fromBytes ck (bytes ++ d.text) (8 + d.text.length) d.src d.dst = .ok (d.header ck) := by
-  refine ⟨_, build_ok ck d hw, by simp [be16], ?_⟩
+  refine ⟨_, c08_udp_build_ok ck d hw, by simp [be16], ?_⟩
   obtain ⟨h1, h2, h3, h4, h5⟩ := hw
   have hc := asU16_lt ck (accBuild ck d.src d.sport d.dst d.dport (d.text.length + 8) d.text)
-  simp only [List.append_assoc, be16_cons, List.cons_append, List.nil_append, fromBytes_cons8, W,
-    Dgram.header]
+  simp only [be16_cons, List.cons_append, fromBytes_cons8, W, Dgram.header]
   rw [W_n2b h1, W_n2b h2, W_n2b (show d.text.length + 8 < 65536 by omega), W_n2b hc,
     accDec_eq_accBuild ck d.src d.dst d.text h1 h2 (by omega)]
   simp only [matchesField_asU16, not_true_eq_false, if_false]
@@ -310,12 +310,12 @@ def Dgram.rfc (ck : Bool) (d : Dgram) : Rfc.Udp :=
 /-- **bit-for-bit RFC 768** -/
 theorem c08_udp_matches_rfc (ck : Bool) (d : Dgram) (hw : d.Wf) :
     build ck d.src d.sport d.dst d.dport d.text d.text.length = .ok (Rfc.pack (d.rfc ck).fields) := by
-  rw [build_ok ck d hw]
+  rw [c08_udp_build_ok ck d hw]
   obtain ⟨h1, h2, h3, h4, h5⟩ := hw
   have hc := asU16_lt ck (accBuild ck d.src d.sport d.dst d.dport (d.text.length + 8) d.text)
   simp only [Dgram.rfc, Dgram.header, Rfc.Udp.fields] at hc ⊢
   generalize asU16 ck _ = cks at hc ⊢
-  simp only [Rfc.pack, Rfc.packFrom, Rfc.emit, Nat.reduceAdd, Nat.reduceDiv, Nat.reduceMod,
+  simp only [Rfc.pack, Rfc.packFrom, Rfc.emit, Nat.reduceDiv, Nat.reduceMod,
     Nat.reduceSub, Nat.reducePow, List.nil_append, List.cons_append, List.append_nil,
     Nat.zero_mul, Nat.zero_add, Nat.mod_one, Nat.div_one, be16, n2b, Except.ok.injEq,
     List.cons.injEq, and_true]
